@@ -117,9 +117,11 @@ Definition cx_compare (oc : bool) (a b : complex) : res (option comparison) :=
   do zb <- (if za then real_is_zero oc (im b) else Ok false);
   if za && zb then do c <- rcmp oc (re a) (re b); Ok (Some c) else Ok None.
 
-(* Complex::pow restricted to the property's fragment *)
-Definition cx_pow (oc : bool) (a b : complex) : res ecomplex :=
-  if negb (rat_is_integer (re b)) || negb (rat_is_integer (im b)) then
+(* Complex::pow restricted to the property's fragment; [isint] is
+   BigRat::is_integer (a parameter only so that the code before commit
+   19d36f9 can be stated next to the current one) *)
+Definition cx_pow_gen (isint : bigrat -> bool) (oc : bool) (a b : complex) : res ecomplex :=
+  if negb (isint (re b)) || negb (isint (im b)) then
     (* frac_pow *)
     do za <- real_is_zero oc (im a);
     do zb <- (if za then real_is_zero oc (im b) else Ok false);
@@ -133,6 +135,9 @@ Definition cx_pow (oc : bool) (a b : complex) : res ecomplex :=
     if za && zb then
       do r <- real_pow oc (re a) (re b); Ok (mkcx (fst r) (rat_of_u64 0), snd r)
     else Err EOther.         (* complex integer powers: outside this property *)
+
+Definition cx_pow (oc : bool) : complex -> complex -> res ecomplex := cx_pow_gen (rat_is_integer oc) oc.
+Definition cx_pow_old (oc : bool) : complex -> complex -> res ecomplex := cx_pow_gen rat_is_integer_old oc.
 
 (* ---------------- Value (unitless, single point) ---------------- *)
 
